@@ -1023,7 +1023,20 @@ def r14(ctx, rep):
     # (7) a parameter before `..`
     ra = arms.get("Range")
     ok = ra is not None and any(x.get("k") in ("p_ts", "p_path", "path") and last_seg(x.get("p", "")) == "Param" for x in walk(ra["body"]))
-    rep.check(ok, "param-before-range", "the Range arm must set a parameter that starts the range apart (`($a)..5`): the lexer reads `$a..5` as ONE parameter named `a..5`",
+    # .. whenever the start is a parameter, whatever else holds (an open end `($a)..` is no exception: `$a..` lexes as one parameter, too)
+    if ok:
+        import boolfn
+        import alpha
+        A_ = alpha.Inliner(kw)
+        conds = [n for n in walk(ra["body"]) if n.get("k") == "if" and n["c"].get("k") != "let" and any(x.get("k") in ("p_ts", "p_path", "path") and last_seg(x.get("p", "")) == "Param" for x in walk(n["c"]))]
+        ok = bool(conds)
+        for n in conds:
+            try:
+                tbl = boolfn.rows(n["c"], A_, lambda t: "Param" if re.fullmatch(r"[\w\.]*\bkind", t.lstrip("&*")) else None)
+                ok = ok and all(v for _, v in tbl)
+            except boolfn.Unknown:
+                ok = False
+    rep.check(ok, "param-before-range", "the Range arm must set a parameter that starts the range apart (`($a)..5`, and `($a)..` too) under no further condition: the lexer reads `$a..5` as ONE parameter named `a..5`",
               file=kw["file"], line=ra["l"] if ra else kw["l"], fn=kw["path"])
     # (8, 9) everything inside an interpolated string literal is escaped
     di = fn_("display_interpolation")
